@@ -42,6 +42,7 @@ def main():
             p = sh('./check %s --tier quick' % c, cwd=VERIF, env=env)
             viol = [l for l in p.stdout.split('\n') if l.startswith('VIOLATION')]
             row[c] = {'rc': p.returncode, 'violation_lines': len(viol), 'no_failing_input_found': any('no-failing-input-found' in l for l in viol),
+                      'with_failing_input': sum(1 for l in viol if 'no-failing-input-found' not in l),
                       'summary': p.stdout.strip().split('\n')[-1][-160:], 'wall_s': round(time.time() - t0, 1)}
             print(name, c, 'rc=%d' % p.returncode, row[c]['summary'], flush=True)
         sh('git -C /repo worktree remove --force %s; git -C /repo worktree prune' % wt)
@@ -52,8 +53,11 @@ def main():
         row = matrix[name]
         pid = os.path.basename(name).split('_')[0]
         if name.startswith('_harmless/'):
-            alarms = sorted(c for c, v in row.items() if isinstance(v, dict) and v.get('rc') != 0)
-            lines.append('| %s (harmless on the current tree) | - | %s | %s |' % (name, 'no alarm (as it should be)' if not alarms else 'FALSE ALARM', ', '.join(alarms) or '-'))
+            alarms = sorted(c for c, v in row.items() if isinstance(v, dict) and v.get('rc') != 0 and v.get('with_failing_input', v.get('violation_lines', 1)) > 0)
+            corr = sorted(c for c, v in row.items() if isinstance(v, dict) and v.get('rc') != 0 and c not in alarms)
+            own = row.get(pid) or {}
+            verdict = 'FALSE ALARM' if alarms else ('no alarm' if not corr else 'correspondence with the engine model broken, no failing input found (reported as such)')
+            lines.append('| %s (harmless on the current tree) | - | %s | %s |' % (name, verdict, ', '.join(alarms + corr) or '-'))
             continue
         own = row.get(pid)
         others = sorted(c for c, v in row.items() if isinstance(v, dict) and c != pid and v.get('rc') == 1)
